@@ -155,8 +155,9 @@ CHECKS = {
         text=("Proof: C12_dispatch (the function registered for the entry point runs next, with the executing sandbox and the guest's argument), C12_result, C12_executing_sandbox (for trees of any "
               "depth across any sandboxes every callback and every guest function observes the innermost executing sandbox -- the nesting automaton checks cbRun/guest events), "
               "C12_dispatch_after_history / C12_owned_is_reachable (after ANY registration history an occupied entry point designates a function held by a live owner and vice versa, by the C13 invariant), "
-              "dylib_callbacks_same_as_noop (source fact). Tied to the code by random registration histories + call trees on vsbx (foreign ABI), noop and noop with embedder-provided TLS."),
-        note=NOTE + "The dylib backend is not executed; its callback code is checked to be textually the noop backend's on every run."),
+              "backends_thread_data_is_thread_local (source fact). Tied to the code by random registration histories + call trees on vsbx (foreign ABI), noop, noop with embedder-provided TLS, "
+              "and the dylib backend executed for real (guest functions in a dlopen'ed shared object), with library- and embedder-provided TLS."),
+        note=NOTE + "All three backends of the property are executed; dlopen/dlsym run for real, symbol-visibility rules of real guest libraries are not exercised."),
     "C19": dict(
         engine="calls", design_ref="DESIGN.md §6 C19",
         technique="Lean 4 mutual structural induction over call trees with faults (stack-automaton acceptance + counting) + differential execution with logging transition hooks",
